@@ -29,6 +29,8 @@ func init() {
 	gens["c05-numbers"] = c05Numbers
 	gens["c05-keypairs"] = c05KeyPairs
 	gens["c05-literals"] = c05Literals
+	gens["c05-case"] = c05Case
+	gens["c05-saddr-bytes"] = c05SaddrBytes
 }
 
 // c05Long: LONG values - fixed-size buffers and limits inside the parser sit far above the
@@ -225,6 +227,55 @@ func c05Literals(c *enumx.Ctx) {
 			}
 		}
 	}
+}
+
+// c05Case: the tokens of a log line in other letter cases (MSG=, Msg=, TYPE=, AUDIT( ...), with and without
+// the exact token elsewhere in the line, behind k = 1, 5, 20, 100 copies of runes whose case-mapped form has
+// another UTF-8 length (an index found in a case-folded copy does not fit the original text), and truncated.
+func c05Case(c *enumx.Ctx) {
+	grow := []string{"\u023a", "\u023e", "\u0130", "\u212a", "\u1e9e", "\xff", "\xc3", "A", ""}
+	variants := func(tok string) []string {
+		return []string{tok, strings.ToUpper(tok), strings.ToUpper(tok[:1]) + tok[1:], strings.ToUpper(tok[:len(tok)-1]) + tok[len(tok)-1:]}
+	}
+	for _, g := range grow {
+		for _, k := range []int{0, 1, 5, 20, 100} {
+			pre := strings.Repeat(g, k)
+			for _, ty := range variants("type=") {
+				for _, ms := range variants("msg=") {
+					for _, au := range variants("audit(") {
+						for _, tail := range []string{"1.1:1): a=b", "1.1:1):", "1.1:1", "", "1"} {
+							if !c.Mine() {
+								continue
+							}
+							parseLine(c, pre+ty+"SYSCALL "+ms+au+tail)
+							parseLine(c, ty+"SYSCALL "+pre+" "+ms+au+tail)
+							parseLine(c, pre+" "+ms+au+tail)
+							parseBody(c, 1300, pre+au+tail)
+						}
+					}
+				}
+			}
+		}
+	}
+	c.Sample("ParseLogLine(20 x U+023A + \" MSG=audit(1.1:1):\") : an error, not a panic")
+}
+
+// c05SaddrBytes: every byte value at every position of golden IPv4 / IPv6 / unix / netlink socket addresses
+// (signs, blanks, 'x', non-hex letters where hex digits belong).
+func c05SaddrBytes(c *enumx.Ctx) {
+	golden := []string{"020001BB0A141E280000000000000000", "0A0001BB00000000FE80000000000000000000000000000100000000", "01002F72756E2F782E736F636B00", "100000000000000000000000"}
+	for _, g := range golden {
+		for pos := 0; pos < len(g); pos++ {
+			for b := 0; b < 256; b++ {
+				if !c.Mine() {
+					continue
+				}
+				m := g[:pos] + string([]byte{byte(b)}) + g[pos+1:]
+				parseBody(c, 1306, "audit(1700000000.123:42): saddr="+m)
+			}
+		}
+	}
+	c.Sample("Parse(1306, saddr=02000050-A000001...) : a sign where a hex digit belongs")
 }
 
 func c05Long(c *enumx.Ctx) {
